@@ -36,7 +36,8 @@ ASSUMPTIONS = [
     'bounds="error" must raise, bounds="warn" must warn, clean="mask" with '
     'left/right=nan must mask; bounds="ignore" with clean="none" may clamp',
 ]
-HOOKS = ['val2idx.twin', 'val2idx.contract', 'time2idx.return']
+HOOKS = ['val2idx.twin', 'val2idx.contract', 'time2idx.return',
+         'val2idx.after-edit']
 TECHNIQUE = ('runtime contract (icontract ensure on the real method) with a '
              'brute-force cell-search oracle over generated query batches')
 MIN_DISTINCT = {'quick': 800, 'thorough': 10000}
@@ -118,7 +119,25 @@ def make_coord(spec):
         else:
             e = np.cumsum(np.maximum(2, np.round(np.diff(e, prepend=e[0] - 2))
                                      ) * 2)
+    if spec.get('int_coord') and spec['bounds'] == 'none' and \
+            spec['seed'] % 2 == 0:
+        # integer centres at an ODD spacing (hours 0, 3, 6 ...; levels 1, 2,
+        # 3 ...): the cell edges lie on half integers
+        k = [1, 3, 5][spec['seed'] // 2 % 3]
+        if spec['uniform']:
+            e = float(rng.integers(-20, 20)) - k / 2. + k * np.arange(n + 1)
+        else:
+            # unequal odd steps: the derived edges are mid-points
+            st = np.array([[1, 3, 5][int(x)] for x in rng.integers(0, 3, n)])
+            cc = float(rng.integers(-20, 20)) + np.concatenate(
+                [[0], np.cumsum(st[:-1])])
+            mids = (cc[:-1] + cc[1:]) / 2. if n > 1 else np.array([])
+            e = np.concatenate([[cc[0] - st[0] / 2.], mids,
+                                [cc[-1] + st[-1] / 2.]])
     c = (e[:-1] + e[1:]) / 2.
+    if spec.get('int_coord') and spec['bounds'] == 'none' and \
+            spec['seed'] % 2 == 0 and not spec['uniform']:
+        c = cc
     if cdtype_of(spec) == 'f':
         # values exactly representable in the storage type
         e = e.astype('f4').astype('f8')
@@ -420,6 +439,36 @@ def run_val_in(spec, res, d, h):
                     '%s, x gave %s' % (
                         q[j] * 2, b.tolist()[j] if b.shape else b,
                         a.tolist()[j] if a.shape else a))
+    if not problems and raised is None and out is not None and \
+            not spec.get('disk') and spec['seed'] % 4 == 1:
+        # the coordinate (and its bounds) is edited in place - rescaled by
+        # two, which is exact in binary - and looked up again on the same
+        # file object: the same cells, for the rescaled queries
+        try:
+            for vk in list(f.variables.keys()):
+                if vk in ('x', 'x_bounds', 'x_bnds', 'xedges'):
+                    vv = f.variables[vk]
+                    vv[...] = np.ma.getdata(vv[...]) * 2
+            harness.WARN_LOG.clear()
+            again = f.val2idx('x', q * 2, **kw)
+            res.hook('val2idx.after-edit')
+            a, b = np.ma.array(out), np.ma.array(again)
+            if a.shape != b.shape or not np.array_equal(
+                    np.ma.getmaskarray(a), np.ma.getmaskarray(b)) or \
+                    not np.array_equal(a.filled(-9), b.filled(-9)):
+                j = int(np.argmax((np.ma.getmaskarray(a) !=
+                                   np.ma.getmaskarray(b)) |
+                                  (a.filled(-9) != b.filled(-9)))) \
+                    if a.shape == b.shape else 0
+                problems.append(
+                    'after the coordinate was rescaled in place (x 2), the '
+                    'same lookup with rescaled queries gives other cells: '
+                    'e.g. query %r -> %s, before the edit %r -> %s'
+                    % (q[j] * 2, b.tolist()[j] if b.shape else b, q[j],
+                       a.tolist()[j] if a.shape else a))
+        except Exception as ex:
+            problems.append('after the coordinate was rescaled in place, '
+                            'the lookup raised %r' % (ex,))
     if problems:
         res.viol('wrong-index:%s:%s' % (spec['method'], spec['dir']),
                  'coordinate %s (%s, bounds=%s), val2idx(%s): %s'
